@@ -255,14 +255,14 @@ def case_cli(ctx, family, k, n, m, plant, seed):
 
 
 def workload(tier, seed):
-    reps = 5 if tier == "quick" else 20
+    reps = 5 if tier == "quick" else 40
     for family in ("kcnf", "kxor"):
         for k in range(0, 5):
             for n in range(0, 7):
                 if k > n + 1:
                     continue
                 for nplanted in range(0, 4):
-                    for rs in range(1 if tier == "quick" else 3):
+                    for rs in range(1 if tier == "quick" else 6):
                         yield "lib", {"family": family, "k": k, "n": n, "nplanted": nplanted,
                                       "rseed": seed * 10 + rs, "reps": reps}
         # the command line documents k and n as positive integers
